@@ -79,6 +79,23 @@ fn make_sut(prim: &str, flavour: &str, consts: &Value) -> Option<Box<dyn Sut>> {
 use futures_intrusive::buffer::{ArrayBuf, FixedHeapBuf, GrowingHeapBuf};
 use mpmc::{Borrowed, ChanSut, SharedCh, Tag};
 
+/// A user-provided `RealArray` (the crate documents this for lengths it has no impl for): 96 is above
+/// 64 and not a power of two.
+pub struct TagArr96([Tag; 96]);
+unsafe impl futures_intrusive::buffer::RealArray<Tag> for TagArr96 {
+    const LEN: usize = 96;
+}
+impl AsMut<[Tag]> for TagArr96 {
+    fn as_mut(&mut self) -> &mut [Tag] {
+        &mut self.0
+    }
+}
+impl AsRef<[Tag]> for TagArr96 {
+    fn as_ref(&self) -> &[Tag] {
+        &self.0
+    }
+}
+
 fn make_ring(flavour: &str, consts: &Value) -> Option<Box<dyn Sut>> {
     let cap = consts["Cap"].as_u64().unwrap_or(1);
     macro_rules! arr {
@@ -97,6 +114,7 @@ fn make_ring(flavour: &str, consts: &Value) -> Option<Box<dyn Sut>> {
             5 => arr!(5),
             16 => arr!(16),
             40 => arr!(40),
+            96 => Box::new(ring::RingSut::<ArrayBuf<Tag, TagArr96>>::new(consts, |b| Some(b.verif_indices()), false)),
             _ => return None,
         },
         "fixed" => Box::new(ring::RingSut::<FixedHeapBuf<Tag>>::new(consts, |_| None, false)),
@@ -115,6 +133,7 @@ fn make_mpmc(flavour: &str, consts: &Value) -> Option<Box<dyn Sut>> {
                 2 => Box::new(ChanSut::<$kind<$m, ArrayBuf<Tag, [Tag; 2]>>>::new(consts, false)),
                 3 => Box::new(ChanSut::<$kind<$m, ArrayBuf<Tag, [Tag; 3]>>>::new(consts, false)),
                 40 => Box::new(ChanSut::<$kind<$m, ArrayBuf<Tag, [Tag; 40]>>>::new(consts, false)),
+                96 => Box::new(ChanSut::<$kind<$m, ArrayBuf<Tag, TagArr96>>>::new(consts, false)),
                 _ => return None,
             }
         };
